@@ -9,6 +9,7 @@
   regular-expression values, negative array indexes in paths, empty path components.
 -/
 import MongoModel.Bson
+import MongoModel.Expr
 
 namespace MongoModel
 
@@ -287,7 +288,9 @@ mutual
             | .doc _ | .str _ => if key = "$not" then .ok true else .error .opFail
             | _ => .error .typeErr)
           if ok then applyFields rest d else pure false
-      else if key = "$expr" then unmodelled
+      else if key = "$expr" then do
+        -- filtering.py:92-96: the parsed expression's Python truthiness
+        if (← Expr.exprFilter search d) then applyFields rest d else pure false
       else if topLevelOperators.contains key then .error .notImpl
       else if key.startsWith "$" then .error .opFail
       else do
